@@ -1,12 +1,14 @@
 import FV.Spec.Serialize
 import FV.C04Layout
 import FV.Props.Catalog
-/-! # C17 — portable composites: alignment 1, no padding (first instalment)
+/-! # C17 — portable composites: alignment 1, no padding, image = reference serialisation
 
 `Ty.align1` is the shape of the types for which the code has a `Portable` impl (every field, the length type **and the
 tag** portable: all of alignment 1). That the *code's* set of `Portable` impls is no larger is a compile-time fact checked by
 negative programs (definitions that must be refused by rustc). The correspondence check compares the image of every
-portable catalog type, at every address offset, with `serialize` — a definition with no layout arithmetic in it. -/
+portable catalog type, at every address offset, with `serialize` — a definition with no layout arithmetic in it.
+`C17_image_is_serialisation_partial` (in `Props/C17Ser.lean`, it needs the emplacer proofs) proves that equality for every portable
+type and initialiser except `flex::FromIterator`. -/
 namespace FV.Props
 open FV
 
